@@ -557,7 +557,7 @@ class Check(DiffCheck):
         m = re.match(r'log=(\S*) tab=(\S*) size=(\d+) kern=(\S*) batch=(\S*) blocked=(\S*) now=(\d+)$', out)
         if not m: return 'unparsable output: %r' % out[:200]
         steps = case.split(' ')[1].split(',')
-        self._rep = {}
+        self._pend = []          # cascading: kernel events fetched by the engine and not yet handed out, [(fd, events)] in kernel order
         chunks = m.group(1).split('|')
         init, chunks = chunks[0], chunks[1:]
         if len(chunks) != len(steps): return 'log has %d step sections for %d steps' % (len(chunks), len(steps))
@@ -624,6 +624,7 @@ class Check(DiffCheck):
                 for w in wait.values():
                     if w['fd'] == fd: w['orphan'] = True; tainted.add(fd)    # closed under a waiter: outside the property's domain
             elif c == 'p':
+                self._pend = []       # wait_and_fire_events (fdcb == true) hands out every fetched event
                 should = [t for t, w in wait.items() if not w['orphan'] and (ready.get(w['fd'], 0) & dirbits[w['d']])]
                 nfd = len(set(wait[t]['fd'] for t in should))
                 for t, (ret, err) in res.items():
@@ -650,7 +651,7 @@ class Check(DiffCheck):
                     if w['dl'] is not None and w['dl'] <= now: expect[t] = (-1, 110)
             elif c in 'adc':
                 if c == 'c' and not readable: now += A(1)      # the epoll fd was not readable: the call timed out
-                r = self._oracle_EC_step(c, a, evs, ready, reg, kern)
+                r = self._oracle_EC_step(c, a, evs, reg, readable)
                 if r: return r
             if c in 'wpitkxr':
                 for t, e in expect.items():
@@ -677,6 +678,19 @@ class Check(DiffCheck):
         if blocked != sorted(wait): return 'threads blocked at the end %s, expected %s' % (blocked, sorted(wait))
         if int(m.group(7)) != now: return 'virtual clock ended at %s, expected %d' % (m.group(7), now)
         if any(c[0] in 'wpit' for c in steps) and m.group(5): return '_events_remain not drained by wait_and_fire_events'
+        if any(c[0] == 'c' for c in steps):
+            # batch_boundary_leftover_kept: what was fetched and not handed out is still there, unchanged and in order
+            want = ','.join('%d:%d' % fe for fe in self._pend)
+            if m.group(5) != want: return 'events left in the batch at the end are [%s], the logged epoll_wait / wait_for_events calls imply [%s]' % (m.group(5), want)
+        if any(c[0] in 'adc' for c in steps) and not any(c[0] == 'w' for c in steps):
+            # the engine's table holds exactly the registrations the (fd, direction)-keyed reference holds
+            tab = {}
+            for it in [x for x in m.group(2).split(',') if x]:
+                fd, ints, rd, wd, ed = [int(x) for x in it.split(':')]
+                for b, d in ((1, rd), (2, wd), (4, ed)):
+                    if ints & b: tab[(fd, b)] = (d, bool(ints & 32768))
+                    elif d: return 'table entry of fd %d keeps data %d for direction %d which is not registered' % (fd, d, b)
+            if tab != reg: return 'registrations at the end are %s, the successful add_interest / rm_interest calls and the deliveries imply %s' % (sorted(tab.items()), sorted(reg.items()))
         return None
 
 
@@ -878,7 +892,20 @@ class Check(DiffCheck):
                 if fin != want: return 'final interest list of poller %d is %s, the logged epoll_ctl/epoll_wait calls imply %s' % (p, fin, want)
         return None
 
-    def _oracle_EC_step(self, c, a, evs, ready, reg, kern):
+    # Cascading API (add_interest / rm_interest / wait_for_events(data, count, timeout)): an exact event-level reference.
+    # The bookkeeping is keyed by (fd, direction) -- NOT by the user `data`, which callers may register on several
+    # descriptors / directions at once -- and by the kernel events the engine has fetched but not yet handed out
+    # (`self._pend`, the logged `P[...]` of the last epoll_wait in kernel order; the engine takes them from the END):
+    #   * a call that finds the epoll descriptor not readable times out: no poll, nothing delivered (leftovers stay);
+    #   * otherwise leftovers are handed out BEFORE the kernel is polled again (batch_boundary_leftover_kept), and the
+    #     kernel is polled exactly once iff there are none;
+    #   * events are consumed while >= 3 slots are free (a descriptor gets all its directions in one call); what ONE
+    #     consumed event delivers is exactly the data registered -- at the time it is handed out -- on THAT descriptor in
+    #     the directions whose bits intersect the event as the kernel reported it, ERROR / READ / WRITE in that order
+    #     (fire_only_registered);
+    #   * a one-shot descriptor loses exactly the directions that fired (unless the re-arming EPOLL_CTL_MOD failed
+    #     because the descriptor was closed behind the engine's back: rm_interest then leaves the entry untouched).
+    def _oracle_EC_step(self, c, a, evs, reg, readable):
         A = lambda i: int(a[i])
         dirbits = {1: self.RB, 2: self.WB, 4: self.EB}
         call = [e for e in evs if e[0] in 'ADV']
@@ -895,27 +922,43 @@ class Check(DiffCheck):
                 if A(1) & 32768:        # rm_interest with ONE_SHOT in the mask strips the one-shot mode of what remains on the fd
                     for key in list(reg):
                         if key[0] == A(0): reg[key] = (reg[key][0], False)
-                if not any(fd == A(0) for (fd, b) in reg): self._rep.pop(A(0), None)
         else:
             mm = re.match(r'V=(-?\d+)\[(.*)\]$', call)
             n = int(mm.group(1)); out = [int(x) for x in mm.group(2).split(',') if x]
             if n != len(out): return 'wait_for_events returned %d but wrote %d data' % (n, len(out))
             if n > A(0): return 'wait_for_events wrote %d data into %d slots' % (n, A(0))
-            # (an event fetched into the 16-slot batch may be delivered by a later call: batch_boundary)
+            pend = self._pend
+            polls = [[tuple(int(x) for x in it.split(':')) for it in e[2:-1].split(',') if it] for e in evs if e.startswith('P[')]
+            modfail = set()
             for e in evs:
-                if e.startswith('P['):
-                    for it in e[2:-1].split(','):
-                        if it:
-                            fd, m2 = [int(x) for x in it.split(':')]; self._rep[fd] = self._rep.get(fd, 0) | m2
-            allowed = [d for (fd, b), (d, os) in reg.items() if (ready.get(fd, 0) | self._rep.get(fd, 0)) & dirbits[b]]
-            for d in out:
-                if d not in allowed: return 'wait_for_events delivered data %d which has no ready registered interest' % d
-            # one-shot interests are consumed by delivery
-            cnt = {}
-            for d in out: cnt[d] = cnt.get(d, 0) + 1
-            for (fd, b), (d, os) in list(reg.items()):
-                if os and ((ready.get(fd, 0) | self._rep.get(fd, 0)) & dirbits[b]) and cnt.get(d, 0) > 0:
-                    cnt[d] -= 1; reg.pop((fd, b))
+                if e[0] == 'C':
+                    head, res = e[1:].split('='); op, fd, _ = [int(x) for x in head.split(',')]
+                    if op == 3 and int(res) != 0: modfail.add(fd)
+            if not readable:
+                if polls: return 'wait_for_events polled the kernel although its wait for the epoll descriptor timed out'
+                if out: return 'wait_for_events delivered %s although its wait for the epoll descriptor timed out' % out
+                return None
+            if pend:
+                if polls:
+                    return 'wait_for_events polled the kernel while %d fetched event(s) %s were still undelivered (leftover of the batch lost)' % (len(pend), pend)
+            else:
+                if len(polls) != 1: return 'wait_for_events polled the kernel %d times (epoll descriptor readable, no leftover)' % len(polls)
+                if len(polls[0]) > 16: return 'epoll_wait returned more than 16 events'
+                pend[:] = polls[0]
+            exp = []; used = []
+            while pend and A(0) - len(exp) >= 3:
+                fd, e = pend.pop()
+                if fd == 901: continue                       # the engine's own eventfd (cancel_wait)
+                fired = [b for b in (4, 1, 2) if (e & dirbits[b]) and (fd, b) in reg]
+                exp += [reg[(fd, b)][0] for b in fired]
+                used.append('%d:%d->%s' % (fd, e, [reg[(fd, b)][0] for b in fired]))
+                if fired and any(os for (f, b), (d, os) in reg.items() if f == fd) and fd not in modfail:
+                    for b in fired: reg.pop((fd, b))         # one-shot interests are consumed by delivery
+            if out != exp:
+                for d in out:
+                    if d not in exp: return 'wait_for_events delivered data %d which has no ready registered interest (delivered %s; the consumed kernel events imply %s)' % (d, out, used)
+                return ('wait_for_events(count=%d) delivered %s, but the kernel events it has to consume (from the end of the fetched batch, while >= 3 slots are free) '
+                        'and the registrations imply %s = %s' % (A(0), out, used, exp))
         return None
 
     def neighbours(self, case, rng):
